@@ -167,12 +167,8 @@ Section Nusselt.
     (linspace0 (1 - 1 / tnat n)%T n i + 1 / tnat (n * 2))%T.
   (** the end index of [tz[0:len(tz)-r]] (Python slice semantics for a negative stop) *)
   Definition slice_stop (len r : nat) : nat := if r <=? len then len - r else (len + len) - r.
-  Definition surf_grid (el : list vec) (npoints : nat) : list vec :=
-    let u := grid_u el in
-    let v := grid_v el in
-    let tri := length el =? 3 in
-    let nx := grid_nx el npoints in
-    let nz := grid_nz el npoints in
+  (** the two loops; [tri]: the patch is a triangle, [o] = [el[0]] *)
+  Definition grid_pts (tri : bool) (nx nz : nat) (u v o : vec) : list vec :=
     let sstep := (1 / tnat (nx * 2))%T in
     let sstepz := (1 / tnat (nz * 2))%T in
     let thres := (tsqrt (sstepz * sstepz + sstep * sstep) / c2)%T in
@@ -184,7 +180,9 @@ Section Nusselt.
         let t := grid_coord nz j in
         let inside := tleb (s + t)%T (1 - thres)%T in
         if tri && negb inside then []
-        else [vadd (vadd (vscale s u) (vscale t v)) (nthv el 0)]) (seq 0 stop)) (seq 0 nx).
+        else [vadd (vadd (vscale s u) (vscale t v)) o]) (seq 0 stop)) (seq 0 nx).
+  Definition surf_grid (el : list vec) (npoints : nat) : list vec :=
+    grid_pts (length el =? 3) (grid_nx el npoints) (grid_nz el npoints) (grid_u el) (grid_v el) (nthv el 0).
 
   (** ** [nusselt_integration(patch_i, patch_j, patch_i_normal, patch_j_normal, nsamples, random=False)] *)
   Definition nusselt_integration (thr_seg thr_dot thr_lag : T) (patch_i patch_j : list vec)
